@@ -44,10 +44,10 @@ type HeapArr struct {
 
 // Heap: slot arrays plus the base version of every slot family (bumped by havoc).
 type Heap struct {
-	slots  map[string]HeapArr
-	famVer map[string]int
-	frames map[string]*frameRec // family -> frame record of its current base version
-	verAlloc map[int]int        // base version -> number of allocations made when it was created
+	slots    map[string]HeapArr
+	famVer   map[string]int
+	frames   map[string]*frameRec // family -> frame record of its current base version
+	verAlloc map[int]int          // base version -> number of allocations made when it was created
 }
 
 // frameRec: the base version `ver` of a family was created by a call whose callee writes only
@@ -98,11 +98,12 @@ func (h Heap) get(slot string) HeapArr {
 }
 
 // slotFamily maps a runtime slot name to the family used for loop / call havoc:
-//   "T.f.g#tag"            -> "T.f"          (first field of the innermost named struct)
-//   "elem(T).f#x"/"box(T).f" -> "T.f"
-//   "elem(T)#x"/"box(T)#x"   -> "elem(T)" / "box(T)"
-//   "cell(T)#x"            -> "cell(T)"
-//   "mapdom(M)"/"mapval(M)#x"/"maplen(M)" -> "map(M)"
+//
+//	"T.f.g#tag"            -> "T.f"          (first field of the innermost named struct)
+//	"elem(T).f#x"/"box(T).f" -> "T.f"
+//	"elem(T)#x"/"box(T)#x"   -> "elem(T)" / "box(T)"
+//	"cell(T)#x"            -> "cell(T)"
+//	"mapdom(M)"/"mapval(M)#x"/"maplen(M)" -> "map(M)"
 func slotFamily(slot string) string {
 	name := slot
 	wrapper := ""
@@ -181,20 +182,20 @@ type arrCopy struct {
 }
 
 type Frame struct {
-	fn      *ssa.Function
-	regs    map[ssa.Value]Value
-	block   *ssa.BasicBlock
-	prev    *ssa.BasicBlock
-	idx     int
-	loops   map[*ssa.BasicBlock]*loopEntry // loop headers already cut on this path
-	call    ssa.CallInstruction           // call site in the caller frame (nil for entry)
-	defers  []deferred
-	oldHeap Heap // heap at entry (for old() in contracts)
-	params  []Value
-	chain   string // inlining chain "f/g/h" used in obligation names
+	fn         *ssa.Function
+	regs       map[ssa.Value]Value
+	block      *ssa.BasicBlock
+	prev       *ssa.BasicBlock
+	idx        int
+	loops      map[*ssa.BasicBlock]*loopEntry // loop headers already cut on this path
+	call       ssa.CallInstruction            // call site in the caller frame (nil for entry)
+	defers     []deferred
+	oldHeap    Heap // heap at entry (for old() in contracts)
+	params     []Value
+	chain      string // inlining chain "f/g/h" used in obligation names
 	wm, wmpost *Term
-	mapLoops []*mapLoopInfo
-	unrolled map[*ssa.BasicBlock]bool // loop headers executed by unrolling (constant trip count)
+	mapLoops   []*mapLoopInfo
+	unrolled   map[*ssa.BasicBlock]bool // loop headers executed by unrolling (constant trip count)
 }
 
 type deferred struct {
@@ -547,47 +548,47 @@ func (s *State) havocFamily(fam string, ver int) {
 // ---------------------------------------------------------------- layouts
 
 type Engine struct {
-	prog      *ssa.Program
-	pkgs      map[string]*ssa.Package
-	repoPkgs  map[string]bool // package paths whose struct types are transparent
-	layouts   map[types.Type][]slot
-	places    []Place
-	funcs     []funcVal
-	typeIDs   map[string]int64
-	typeByID  map[int64]types.Type
-	havocN    int
-	symN      int
-	obls      map[string]*Obligation
-	oblOrder  []string
-	cfg       *Config
-	contracts *Contracts
-	tree      *TreeSpec
-	initHeap  Heap
-	initAlloc int
-	assumed   map[string]bool // unchecked assumptions actually used
-	curEntry  *ssa.Function
-	curPhaseB bool
-	paths     int
-	steps     int // basic blocks executed by the current symbolic run
-	errors    []string
-	siteNames map[ssa.Instruction]string
-	loopInfo  map[*ssa.Function]*loopAnalysis
-	entryWrites map[string]bool
-	arrSpecs  map[*Term]func(*Term) Value
-	arrFacts  map[*Term]func(*State, *Term)
-	exited    []*State
-	inInit    bool
-	initAllocTy map[int64]string
-	initCopies map[int64]*arrCopy
-	vacuity   []vacuityProbe
-	onReturn  func(fn *ssa.Function, r pathResult)
-	onExit    func(fn *ssa.Function, s *State)
-	mapIters   [][]Value
-	pendingPre *Heap
+	prog         *ssa.Program
+	pkgs         map[string]*ssa.Package
+	repoPkgs     map[string]bool // package paths whose struct types are transparent
+	layouts      map[types.Type][]slot
+	places       []Place
+	funcs        []funcVal
+	typeIDs      map[string]int64
+	typeByID     map[int64]types.Type
+	havocN       int
+	symN         int
+	obls         map[string]*Obligation
+	oblOrder     []string
+	cfg          *Config
+	contracts    *Contracts
+	tree         *TreeSpec
+	initHeap     Heap
+	initAlloc    int
+	assumed      map[string]bool // unchecked assumptions actually used
+	curEntry     *ssa.Function
+	curPhaseB    bool
+	paths        int
+	steps        int // basic blocks executed by the current symbolic run
+	errors       []string
+	siteNames    map[ssa.Instruction]string
+	loopInfo     map[*ssa.Function]*loopAnalysis
+	entryWrites  map[string]bool
+	arrSpecs     map[*Term]func(*Term) Value
+	arrFacts     map[*Term]func(*State, *Term)
+	exited       []*State
+	inInit       bool
+	initAllocTy  map[int64]string
+	initCopies   map[int64]*arrCopy
+	vacuity      []vacuityProbe
+	onReturn     func(fn *ssa.Function, r pathResult)
+	onExit       func(fn *ssa.Function, s *State)
+	mapIters     [][]Value
+	pendingPre   *Heap
 	globalPlaces map[string]*Term
-	detCur    *mapLoopInfo
-	curFramed bool
-	curExcept []frameExc
+	detCur       *mapLoopInfo
+	curFramed    bool
+	curExcept    []frameExc
 }
 
 type funcVal struct {
